@@ -84,12 +84,18 @@ static WB: std::sync::atomic::AtomicBool = std::sync::atomic::AtomicBool::new(fa
 fn wb() -> bool {
     WB.load(std::sync::atomic::Ordering::Relaxed)
 }
+/// this case runs the backend as it is deployed behind a Vfs (`do_import = false`, `uv=1`)
+static UV: std::sync::atomic::AtomicBool = std::sync::atomic::AtomicBool::new(false);
+fn uv() -> bool {
+    UV.load(std::sync::atomic::Ordering::Relaxed)
+}
 
 fn mk_fs(dir: &str, seal: bool, no_open: bool, adio: bool, second_session: bool) -> PassthroughFs<()> {
     let cfg = Config {
         root_dir: dir.to_string(),
         seal_size: seal,
         writeback: wb(),
+        do_import: !uv(),
         no_open,
         allow_direct_io: adio,
         cache_policy: CachePolicy::Always,
@@ -191,7 +197,9 @@ impl Side {
                     let Some(ino) = ino else { return "skip".into() };
                     let len = n(p[4]);
                     let mut src = Src::new(len as usize);
-                    match self.fs.write(&ctx, ino, self.handle(n(p[2]) as usize), &mut src, len as u32, n(p[5]), None, false, n(p[3]) as u32, 0) {
+                    // the client's FUSE_WRITE_CACHE hint varies with the request (it must not matter)
+                    let cache_hint = (len ^ n(p[5]) ^ n(p[3])) & 1 == 1;
+                    match self.fs.write(&ctx, ino, self.handle(n(p[2]) as usize), &mut src, len as u32, n(p[5]), None, cache_hint, n(p[3]) as u32, cache_hint as u32) {
                         Ok(c) => format!("ok:{}", c),
                         Err(e) => format!("e{}", errno(&e)),
                     }
@@ -363,7 +371,7 @@ fn run_case(out: &mut Out, tmp: &str, id: u64, pr: &Probe, seal: bool, no_open: 
         let w = within(&op, cur, &exists, append);
         let before_handles = a.opened.len();
         // breadcrumb: the history up to and including this request, should the process die in it
-        fbrh::util::crumb(&format!("seal={} no={} adio={} re={} wb={} dio={} files={} fal={} ops={}{}{}", seal as u8, no_open as u8, adio as u8, re as u8, wb() as u8, pr.dio,
+        fbrh::util::crumb(&format!("seal={} no={} adio={} re={} wb={} uv={} dio={} files={} fal={} ops={}{}{}", seal as u8, no_open as u8, adio as u8, re as u8, wb() as u8, uv() as u8, pr.dio,
             sizes.iter().map(|s| s.to_string()).collect::<Vec<_>>().join(","), pr.fal, ops.join(";"), if ops.is_empty() { "" } else { ";" }, op));
         let r = a.exec(&op, nfiles, no_open);
         if r == "skip" {
@@ -480,7 +488,7 @@ fn run_case(out: &mut Out, tmp: &str, id: u64, pr: &Probe, seal: bool, no_open: 
         }
     }
     let szs: Vec<String> = sizes.iter().map(|s| s.to_string()).collect();
-    let line = format!("seal={} no={} adio={} re={} wb={} dio={} files={} fal={} ops={}", seal as u8, no_open as u8, adio as u8, re as u8, wb() as u8, pr.dio, szs.join(","), pr.fal, ops.join(";"));
+    let line = format!("seal={} no={} adio={} re={} wb={} uv={} dio={} files={} fal={} ops={}", seal as u8, no_open as u8, adio as u8, re as u8, wb() as u8, uv() as u8, pr.dio, szs.join(","), pr.fal, ops.join(";"));
     let mut seen = std::collections::HashSet::new();
     for (key, what) in &oracle {
         if seen.insert(key.clone()) {
@@ -533,6 +541,7 @@ fn main() {
             let sizes: Vec<u64> = kv.get("files").copied().unwrap_or("").split(',').filter_map(|s| s.parse().ok()).collect();
             let ops: Vec<String> = kv.get("ops").copied().unwrap_or("").split(';').filter(|s| !s.is_empty()).map(|s| s.to_string()).collect();
             WB.store(kv.get("wb").copied() == Some("1"), std::sync::atomic::Ordering::Relaxed);
+            UV.store(kv.get("uv").copied() == Some("1"), std::sync::atomic::Ordering::Relaxed);
             run_case(&mut out, &tmp.0, i as u64, &pr, kv.get("seal").copied() != Some("0"), kv.get("no").copied() == Some("1"),
                      kv.get("adio").copied() != Some("0"), kv.get("re").copied() == Some("1"), &sizes, None, Some(ops));
         }
@@ -547,6 +556,8 @@ fn main() {
         // one case in six: writeback cache configured and negotiated (descriptors are opened
         // without O_APPEND and read-write; check_fd_flags may put O_APPEND back)
         WB.store(i % 6 == 2, std::sync::atomic::Ordering::Relaxed);
+        // one case in seven: the backend as deployed behind a Vfs (the seal is the backend's job there too)
+        UV.store(i % 7 == 4, std::sync::atomic::Ordering::Relaxed);
         let k = 3 + r.below(4) as usize;
         let sizes: Vec<u64> = (0..k).map(|_| *r.pick(&SIZES)).collect();
         // one case in five runs in the client's second session (INIT, DESTROY, INIT on the same server)
